@@ -72,13 +72,13 @@ fn class(msg: &str) -> String {
         ("attempt to add with overflow", "add-overflow"),
         ("attempt to subtract with overflow", "sub-overflow"),
     ];
-    for (k, c) in TBL {
-        if msg.contains(k) {
-            return (*c).to_string();
-        }
+    // Only WHETHER an operation panics is compared with the model, never the wording of the message (the
+    // table above is kept for the tags of a replay). A harness-internal panic stays visible.
+    if msg.contains("harness:") {
+        return "harness".to_string();
     }
-    let m: String = msg.chars().map(|c| if c.is_ascii_whitespace() { '_' } else { c }).take(50).collect();
-    format!("other:{m}")
+    let _ = TBL;
+    "any".to_string()
 }
 
 fn panic_msg(e: Box<dyn std::any::Any + Send>) -> String {
